@@ -28,6 +28,10 @@ def make(pid):
                         continue
                     n += 1
                     allowed = [a for a in row["allowed"] if a["caller"] == f.path]
+                    if not allowed and f.kind == "closure":
+                        # a closure belongs to the function it is written in (an iterator adaptor's body, say)
+                        owner = re.sub(r"(::\{closure#\d+\})+$", "", f.path)
+                        allowed = [dict(a, args={}) for a in row["allowed"] if a["caller"] == owner and not a.get("args")]
                     key = "R-OWN(%s)/%s/%s" % (pid, row["id"], f.path)
                     if not allowed:
                         res.fail(Finding(res.rule, key + "/unlisted-caller", "%s is called from %s, which is not one of the allocator's protocol functions for it (%s): %s" % (
